@@ -74,6 +74,30 @@ class ArgSummary:
     def establishes_text(self, call, text):
         return self.establishes(call, lambda a: SX.show(a) == text)
 
+    def establishes_canon(self, call, text, canon):
+        """like establishes_text, but operands are compared in canonical form (K-CANON: single-definition locals expanded,
+        straight-line local closures inlined), and an invocation of a local closure counts through the calls it performs
+        unconditionally."""
+        if self.establishes(call, lambda a: canon.text(a) == text):
+            return True
+        for inner, subst in canon.closure_events(call):
+            for j in self.positions(inner):
+                a = arg(inner, j)
+                if a is not None and canon.text(a, subst) == text:
+                    return True
+        return False
+
+    def inner_establishing(self, call, text, canon):
+        """the call node that actually establishes the fact: `call` itself, or the call inside the closure it invokes"""
+        if self.establishes(call, lambda a: canon.text(a) == text):
+            return call
+        for inner, subst in canon.closure_events(call):
+            for j in self.positions(inner):
+                a = arg(inner, j)
+                if a is not None and canon.text(a, subst) == text:
+                    return inner
+        return None
+
 
 def full_range_for(s):
     """s is `for (T i = 0; i < <bound>; ++i)` (or i++ / i += 1) with i not written in the body.
